@@ -1,8 +1,10 @@
 package ast
 
 import (
+	"cmp"
 	"fmt"
 	"os"
+	"slices"
 	"sync"
 
 	"github.com/dominikbraun/graph"
@@ -46,7 +48,12 @@ func (tfg *TaskfileGraph) Visualize(filename string) error {
 }
 
 func (tfg *TaskfileGraph) Merge() (*Taskfile, error) {
-	hashes, err := graph.TopologicalSort(tfg.Graph)
+	// The sort must be stable: the order in which sibling Taskfiles are merged
+	// decides the order of the tasks and which of two equally named variables
+	// wins, and it must not change from one run to the next
+	hashes, err := graph.StableTopologicalSort(tfg.Graph, func(a, b string) bool {
+		return a < b
+	})
 	if err != nil {
 		return nil, err
 	}
@@ -86,6 +93,15 @@ func (tfg *TaskfileGraph) Merge() (*Taskfile, error) {
 				if !ok {
 					return fmt.Errorf("task: Failed to get merge options")
 				}
+
+				// A Taskfile included several times by the same parent is
+				// merged in the order of the parent's include declarations,
+				// not in the order in which the reader finished them
+				declared := slices.Collect(vertex.Taskfile.Includes.Keys())
+				includes = slices.Clone(includes)
+				slices.SortStableFunc(includes, func(a, b *Include) int {
+					return cmp.Compare(slices.Index(declared, a.Namespace), slices.Index(declared, b.Namespace))
+				})
 
 				// Merge the included Taskfiles into the parent Taskfile
 				for _, include := range includes {
